@@ -84,6 +84,12 @@ func verifyFunction(fn *ssa.Function) (res *FuncResult) {
 			ex.assume(t)
 		}
 	}
+	if sp != nil && sp.Allocates != nil {
+		_, err := ex.safeEval(env, func() *Term { ex.allocBound = env.intOf(sp.Allocates); return True })
+		if err != "" {
+			contractFatal("contract error in allocates of %s: %s", res.Name, err)
+		}
+	}
 	if sp != nil {
 		ex.hasFrame = !sp.ModAny
 		ex.frameProps = sp.props()
